@@ -24,9 +24,11 @@ def run(prog, chk):
     chk.rule('R16.A', 'obligation matrix: rule predicate × analyser site has a guarded Semantic throw')
     chk.rule('R16.B', 'type-compatibility helpers equal the documented relation on the whole finite type domain')
     chk.rule('R16.C', 'no site skips the comparison by testing the Unknown primitive tag of an inferred value type')
+    chk.rule('R16.E', 'final-field nesting: every visitor of a statement with sub-statements raises the nesting counter before visiting any child')
     chk.rule('R16.D', 'context discipline: a context member a visitor sets for the body it analyses is saved first and restored on every normal exit')
     fns = [f for f in prog.functions if f.body and f.file.endswith('semantic_analyser.cpp')]
     _context_discipline(prog, chk, fns)
+    _nesting_counter_rule(prog, chk, fns)
     visits = {}
     for f in fns:
         if f.short == 'visit' and f.cls == AN and f.params:
@@ -360,6 +362,65 @@ def _relation(prog, chk, named, fns):
 CONTEXT_SIGNALS = {
     ('visit(ReturnStatement)', 'm_foundReturn'): 'a signal read by the enclosing function/method visitor after it analysed the body (which saves and restores it)',
 }
+
+
+def _nesting_counter_rule(prog, chk, fns):
+    """R16.E — "assigned as a top-level constructor statement" is decided with a nesting counter that is 0 only for the statements
+    of the constructor body itself.  Every visitor of a statement kind that holds sub-statements (block, if, ternary, for, while —
+    found from the AST: a *Statement record with a member of statement type) must therefore raise the counter before it visits
+    ANY child, header expressions included (`for (this.x = 0; …)`, `while ((x = f()) > 0)` are not top-level assignments)."""
+    meths = [f for f in fns if f.cls == AN and f.kind == 'method' and f.body]
+    counters = set()
+    for f in meths:
+        for n in SX.walk(f.body):
+            w = SX.write_target(n)
+            if w and SX.is_this_member(SX.strip(w[0])) and (w[2] == '++' or (w[2] == '+=' and SX.is_node(SX.strip(w[1])) and SX.strip(w[1]).get('v') == 1)):
+                nm = SX.strip(w[0])['name']
+                # … that some method compares with 0 (the top-level test)
+                for f2 in meths:
+                    for c in SX.walk(f2.body):
+                        cp = SX.cmp_parts(c) if c.get('k') in ('bin', 'opcall', 'un') else None
+                        if cp and SX.is_this_member(SX.strip(cp[1]), nm) and SX.is_node(SX.strip(cp[2])) and SX.strip(cp[2]).get('v') == 0:
+                            counters.add(nm)
+    chk.count('nesting counters of the analyser', len(counters), 1)
+    ctrl = []
+    for rname, rec in prog.facts.records.items():
+        short = rname.split('::')[-1]
+        if not short.endswith('Statement') or 'compiler' not in rname:
+            continue
+        if any('Statement>' in (x.get('type') or '').replace(' ', '') for x in rec.get('fields', [])):
+            ctrl.append(short)
+    chk.count('statement kinds that hold sub-statements', len(ctrl), 4)
+    nv = 0
+    for short in sorted(ctrl):
+        vs = [f for f in meths if f.short == 'visit' and len(f.params) == 1 and (f.params[0].get('type') or '').replace('const ', '').replace(' ', '').rstrip('&').endswith('::' + short)]
+        if len(vs) != 1:
+            continue
+        f = vs[0]
+        g = prog.cfg(f)
+        accepts = [c for c in g.calls(lambda e: e['k'] == 'mcall' and SX.short(e.get('callee', '')) == 'accept')]
+        if not accepts:
+            continue
+        nv += 1
+        incs = [n for n, l, r, op in g.writes() if SX.is_this_member(SX.strip(l)) and SX.strip(l)['name'] in counters and op in ('++', '+=')]
+        bad = []
+        for a in accepts:
+            ok = False
+            for inc in incs:
+                gs = [(ce, pol, ed) for ce, pol, ed in g.guards(inc)]
+                if not gs:
+                    ok = ok or g.dominates(inc, a)
+                    continue
+                ce, pol, ed = gs[-1]
+                cnode = getattr(ed, 'cond', None)
+                if cnode is not None and g.dominates(cnode, a) and a.id not in g.reachable([ed], avoid=[inc]):
+                    ok = True
+            if not ok:
+                bad.append(a)
+        chk.ob('R16.E', f, (bad[0].ln if bad else f.ln) or f.ln, not bad,
+               'visit(%s) raises the constructor nesting counter (%s) before it visits any child; children visited at the enclosing depth: %s — a final-field assignment there '
+               'passes as a top-level constructor statement' % (short, '/'.join(sorted(counters)), [SX.show(x.e)[:40] for x in bad][:3]), key='nesting:' + short)
+    chk.count('visitors of statements with sub-statements', nv, 4)
 
 
 def _context_discipline(prog, chk, fns):
